@@ -99,6 +99,10 @@ func c09Specs() []c09Spec {
 			Threads: [][]c09Op{{{Kind: "purge", MB: m2}, {Kind: "add", MB: storeBoxes[2], Size: 600}}, {{Kind: "list", MB: m1}}}, Bound: [2]int{2, 3}},
 		// nothing but readers: two listings and a get of the same mailbox at the same time (what they
 		// share must be shared safely; the free-running race pass runs this one too)
+		// the environment fails one opening of the index while a purge runs: the purge may fail, every
+		// later operation on the mailbox (same client, other client) must still complete
+		{ID: "S27-file-purge-index-open-fails-then-list-vs-add", Store: sys.StoreSpec{Backend: "file"}, Init: []c09Op{add(m1), add(m1)},
+			Threads: [][]c09Op{{{Kind: "purge!", MB: m1}, {Kind: "list", MB: m1}}, {add(m1)}}, Bound: [2]int{1, 2}, NoLin: true},
 		{ID: "S26-mem-list-list-getlatest", Store: mem, Init: []c09Op{add(m1), add(m1)},
 			Threads: [][]c09Op{{{Kind: "list", MB: m1}}, {{Kind: "list", MB: m1}}, {{Kind: "get", MB: m1, Ref: "latest"}}}, Bound: [2]int{2, 3}},
 		{ID: "S1-mem-maxkb-add-remove-add", Store: memKB, Init: []c09Op{add(m1)},
